@@ -219,7 +219,7 @@ macro_rules! window_harness {
 window_harness!(c26_window_h0, 0, 1);
 window_harness!(c26_window_h1, 1, 1);
 window_harness!(c26_window_h2, 2, 1);
-window_harness!(c26_window_h3, 3, 2);
+window_harness!(c26_window_h3, 3, 1);
 
 // thorough tier: 5 rotations, fully symbolic key material
 rotate_harness!(c26_rotate_h0, 0, 5, false);
